@@ -3,5 +3,8 @@ EXTENDS ContainerAcl
 (* start wrappers: every node of the fixture that is interesting as a start, every flag combination *)
 StartNodes == {<<>>, <<"g">>, <<"g", "h">>, <<"g", "e">>}
 AllStarts  == {<<n, f>> : n \in StartNodes, f \in SUBSET Flags}
+AllHows    == {"getitem", "get", "items", "values"}
+TwoHows    == {"getitem", "values"}
+OneHow     == {"getitem"}
 FewStarts  == {<<n, f>> : n \in {<<"g">>, <<>>}, f \in SUBSET Flags}
 =============================================================================
